@@ -60,6 +60,7 @@ pub enum Feed {
 
 fn run_one(prev: Option<Element<String>>, bytes: &[u8], cfg: &ReaderCfg, feed: Feed)
     -> Result<Result<Element<String>, xml_schema_generator::ParserError>, ()> {
+    crate::util::toggle_logging();
     if let Some(t) = prev.as_ref() {
         crate::util::probe_render(t);
     }
@@ -360,7 +361,7 @@ pub fn pair_compare(a: &Args) {
     }
 }
 
-fn fnv(s: &str) -> u64 {
+pub fn fnv(s: &str) -> u64 {
     let mut h: u64 = 0xcbf29ce484222325;
     for b in s.bytes() {
         h ^= b as u64;
@@ -406,6 +407,11 @@ pub fn c05(a: &Args) {
                 g.attrs = ["foo", "Foo", "foo_attr", "foo_1", "text", "text_content"].iter().map(|x| x.to_string()).collect();
                 g.text_pct = 60;
             }
+            if s % 5 == 4 {
+                // (element, child) pairs whose names read the same once joined: (order, item_type) / (order_item, type)
+                g.names = ["order", "order_item", "item_type", "type", "item", "order_item_type"].iter().map(|x| x.to_string()).collect();
+                g.attrs = ["type", "item_type", "id"].iter().map(|x| x.to_string()).collect();
+            }
             g.max_depth = 2 + r.below(3);
             g.max_kids = 2 + r.below(4);
             g.pretty = s % 4 == 0;
@@ -435,7 +441,12 @@ pub fn c05(a: &Args) {
     // that leaks from one rendering into the next shows as a digest that differs between two processes
     let reverse = a.num("reverse", 0) == 1;
     let all: Vec<(usize, &Value)> = cases.iter().chain(extra_cases.iter()).enumerate().collect();
-    let order: Vec<(usize, &Value)> = if reverse { all.into_iter().rev().collect() } else { all };
+    let mut order: Vec<(usize, &Value)> = if reverse { all.into_iter().rev().collect() } else { all };
+    // --shuffle N: a pseudo-random order (two inputs that disturb each other through process-wide state are seen in
+    // either order by some process)
+    if a.num("shuffle", 0) > 0 {
+        Rng::new(a.num("shuffle", 0)).shuffle(&mut order);
+    }
     let mut digest_at: Vec<(usize, String)> = Vec::new();
     for (ci, c) in order {
         if (ci < cases.len() && ci % stride != 0) || c["expect"]["st"] != "ok" {
